@@ -21,7 +21,7 @@ from typing import Any, TYPE_CHECKING
 
 import numpy as np
 
-from cirq import ops, protocols, study, value
+from cirq import ops, protocols, value
 from cirq._compat import proper_repr
 from cirq.sim import density_matrix_simulation_state, simulator, simulator_base
 
@@ -222,10 +222,9 @@ class DensityMatrixSimulator(
         if not isinstance(observables, list):
             observables = [observables]
         pslist = [ops.PauliSum.wrap(pslike) for pslike in observables]
-        for param_resolver in study.to_resolvers(params):
-            result = self.simulate(
-                program, param_resolver, qubit_order=qubit_order, initial_state=initial_state
-            )
+        for result in self.simulate_sweep_iter(
+            program, params, qubit_order=qubit_order, initial_state=initial_state
+        ):
             swept_evs.append(
                 [
                     obs.expectation_from_density_matrix(result.final_density_matrix, qmap)
